@@ -326,6 +326,25 @@ func init() {
 		x.st.heap.m[o] = StructV{F: []Value{b, Scalar{bv64(0)}, Scalar{BVU(0, 8)}}}
 		return PtrV{Obj: o, Nil: False()}
 	}
+	// strconv.Itoa: some string (the code under verification only logs it)
+	extModels["strconv.Itoa"] = func(x *Exec, fr *Frame, args []Value, pos token.Pos) Value {
+		n := len(x.inputs)
+		sv := x.freshSymSlice("itoa", 8, types.Typ[types.Uint8])
+		x.inputs = x.inputs[:n]
+		sv.Str = true
+		return sv
+	}
+	// bytes.NewReader: the same reading discipline (only reads are modelled)
+	extModels["bytes.NewReader"] = func(x *Exec, fr *Frame, args []Value, pos token.Pos) Value {
+		b := asSlice(args[0])
+		o := x.newObject(nil, "bytes.Reader")
+		x.st.heap.m[o] = StructV{F: []Value{b, Scalar{bv64(0)}, Scalar{BVU(0, 8)}}}
+		return PtrV{Obj: o, Nil: False()}
+	}
+	extModels["(*bytes.Reader).Len"] = func(x *Exec, fr *Frame, args []Value, pos token.Pos) Value {
+		_, sv := x.bufferOf(args[0])
+		return Scalar{BvSub(asSlice(sv.F[0]).Len, term(sv.F[1]))}
+	}
 	extModels["(*bytes.Buffer).Len"] = func(x *Exec, fr *Frame, args []Value, pos token.Pos) Value {
 		_, sv := x.bufferOf(args[0])
 		return Scalar{BvSub(asSlice(sv.F[0]).Len, term(sv.F[1]))}
